@@ -38,7 +38,9 @@ Record shape := {
   sh_ux_d : bool; sh_ux_u : bool;  (* select case upPipe, any other error *)
   sh_refused_closed : bool;      (* client, openStream: the stream is closed when channel selection fails *)
   sh_lst_closes_up : bool;       (* client, listener.HandleConnection: TryClose(up) at the end *)
-  sh_lst_closes_conn : bool      (* ... and TryClose(conn) *)
+  sh_lst_closes_conn : bool;     (* ... and TryClose(conn) *)
+  sh_dir_closes_conn : bool;     (* client, ConnectDirectly: the local connection is closed when the pipe to the forward address is over *)
+  sh_dir_closes_up : bool        (* ... and so is the connection to the forward address *)
 }.
 
 Definition intended : shape :=
@@ -47,7 +49,8 @@ Definition intended : shape :=
      sh_cap_down := 1; sh_cap_up := 1;
      sh_de_d := false; sh_de_u := true; sh_dx_d := true; sh_dx_u := true;
      sh_ue_d := true; sh_ue_u := false; sh_ux_d := true; sh_ux_u := true;
-     sh_refused_closed := true; sh_lst_closes_up := true; sh_lst_closes_conn := true |}.
+     sh_refused_closed := true; sh_lst_closes_up := true; sh_lst_closes_conn := true;
+     sh_dir_closes_conn := true; sh_dir_closes_up := true |}.
 
 Definition code_shape : shape :=
   {| sh_err_closes_own := Gen.HandlerShape.accept_error_path_closes_own_param && Gen.HandlerShape.accept_goroutine_gets_accepted_stream;
@@ -67,16 +70,20 @@ Definition code_shape : shape :=
      sh_ux_d := Gen.HandlerShape.pipe_up_err_closes_down; sh_ux_u := Gen.HandlerShape.pipe_up_err_closes_up;
      sh_refused_closed := Gen.HandlerShape.client_open_stream_closes_refused;
      sh_lst_closes_up := Gen.HandlerShape.listener_end_closes_up;
-     sh_lst_closes_conn := Gen.HandlerShape.listener_end_closes_conn |}.
+     sh_lst_closes_conn := Gen.HandlerShape.listener_end_closes_conn;
+     sh_dir_closes_conn := Gen.HandlerShape.connect_directly_closes_conn;
+     sh_dir_closes_up := Gen.HandlerShape.connect_directly_closes_direct |}.
 
 (* the shapes the theorems are about: every switch as the code has it today, except that muxHandler may or may not close the target
-   connection itself (today it does not), the session may or may not be closed on a terminal accept error, and the report channels may
+   connection itself (it does since 1ffd47e), the session may or may not be closed on a terminal accept error, and the report channels may
    have any capacity above zero *)
-Definition shape_ok (sh : shape) : bool :=
+Definition shape_ok_server (sh : shape) : bool :=
   sh_err_closes_own sh && sh_defer_closes_own sh && sh_acc_quiet_returns sh && sh_acc_err_returns sh &&
   Nat.eqb (sh_slots sh) 0 && negb (sh_dial_lock sh) && Nat.ltb 0 (sh_cap_down sh) && Nat.ltb 0 (sh_cap_up sh) &&
-  negb (sh_de_d sh) && sh_de_u sh && sh_dx_d sh && sh_dx_u sh && sh_ue_d sh && negb (sh_ue_u sh) && sh_ux_d sh && sh_ux_u sh &&
-  sh_refused_closed sh && sh_lst_closes_up sh && sh_lst_closes_conn sh.
+  negb (sh_de_d sh) && sh_de_u sh && sh_dx_d sh && sh_dx_u sh && sh_ue_d sh && negb (sh_ue_u sh) && sh_ux_d sh && sh_ux_u sh.
+(* ... and the client's: a refused stream is closed, HandleConnection closes both ends, and so does ConnectDirectly *)
+Definition shape_ok (sh : shape) : bool :=
+  shape_ok_server sh && sh_refused_closed sh && sh_lst_closes_up sh && sh_lst_closes_conn sh && sh_dir_closes_conn sh && sh_dir_closes_up sh.
 
 (* the defects this code has been the target of, each as the one switch it flips *)
 Inductive defect :=
@@ -87,7 +94,8 @@ Inductive defect :=
 | DSlotLeak         (* a per-session slot (two of them) taken per accepted stream and given back on the normal return only *)
 | DContinue         (* a terminal accept error is answered with `continue` *)
 | DCap0             (* unbuffered report channels *)
-| DDialLock.        (* the target is dialled under a session-wide lock *)
+| DDialLock         (* the target is dialled under a session-wide lock *)
+| DDirectOpen.      (* ConnectDirectly closes nothing after its pipe (the code before the repair) *)
 
 Definition variant (v : defect) : shape :=
   {| sh_err_closes_own := match v with DClosesLatest => false | _ => true end;
@@ -104,7 +112,10 @@ Definition variant (v : defect) : shape :=
      sh_ue_d := match v with DWrongSide => false | _ => true end; sh_ue_u := match v with DWrongSide => true | _ => false end;
      sh_ux_d := true; sh_ux_u := true;
      sh_refused_closed := match v with DRefusedOpen => false | _ => true end;
-     sh_lst_closes_up := true; sh_lst_closes_conn := true |}.
+     sh_lst_closes_up := true; sh_lst_closes_conn := true;
+     (* (the wrong side closed shows only where nothing is closed after the pipe: the direct path before its repair) *)
+     sh_dir_closes_conn := match v with DDirectOpen | DWrongSide => false | _ => true end;
+     sh_dir_closes_up := match v with DDirectOpen | DWrongSide => false | _ => true end |}.
 
 (* ================================================================================================================================
    PipeData as a component: its own thread (the select), two copy goroutines, two report channels. The two ends it pipes between are
@@ -607,6 +618,7 @@ Inductive lpc :=
 | LWait                  (* ... ms.SelectProtoOrFail waits for the answer *)
 | LPipe (direct : bool)  (* inside streams.PipeData *)
 | LClose (up_held : bool)  (* HandleConnection's last two statements: TryClose(up); TryClose(conn) *)
+| LDClose                (* ConnectDirectly returns: its deferred closes of both ends *)
 | LDone.
 
 Record lend := { e_ex : bool; e_closed : bool; e_eof : bool; e_err : bool; e_data : bool; e_n : nat }.
@@ -676,13 +688,14 @@ Definition l_hand (sh : shape) (pick_up : bool) (l : lconn) : option lconn :=
     end
   | LPipe direct =>
     match p_pc (l_p l) with
-    | PRet _ => Some (lset_pc l (if direct then LDone else LClose true))
+    | PRet _ => Some (lset_pc l (if direct then LDClose else LClose true))
     | _ => match sel_step sh pick_up (l_p l) with
            | Some (p', cl) => Some (lclose (lset_p l p') cl)
            | None => None
            end
     end
   | LClose up_held => Some (lset_pc (lclose l (sh_lst_closes_conn sh, up_held && sh_lst_closes_up sh)) LDone)
+  | LDClose => Some (lset_pc (lclose l (sh_dir_closes_conn sh, sh_dir_closes_up sh)) LDone)
   | LDone => None
   end.
 
@@ -733,7 +746,7 @@ Definition lrun (sh : shape) (l : lconn) (evs : list lev) : lconn := fold_left (
 
 Definition l_quiet (sh : shape) (l : lconn) : bool :=
   is_none (l_hand sh false l) && is_none (l_hand sh true l) && is_none (l_copy sh Down l) && is_none (l_copy sh Up l).
-Definition l_post (x : lpc) : bool := match x with LClose _ | LDone => true | _ => false end.
+Definition l_post (x : lpc) : bool := match x with LClose _ | LDClose | LDone => true | _ => false end.
 (* why a local connection is over: either side hung up or failed, or HandleConnection is past its PipeData (refused, no session, piped to the end) *)
 Definition l_ended (l : lconn) : bool :=
   e_eof (l_app l) || e_err (l_app l) || e_eof (l_upc l) || e_err (l_upc l) || l_post (l_pc l).
@@ -747,11 +760,12 @@ Definition l_settled (l : lconn) : bool :=
   end.
 Definition l_goroutines (l : lconn) : nat :=
   (match l_pc l with LDone => 0 | _ => 1 end) + (if cop_live (p_cd (l_p l)) then 1 else 0) + (if cop_live (p_cu (l_p l)) then 1 else 0).
-(* through the tunnel: both ends closed, every goroutine gone *)
+(* both ends closed, every goroutine gone *)
 Definition l_released (l : lconn) : bool :=
   match l_pc l with LDone => true | _ => false end && negb (cop_live (p_cd (l_p l))) && negb (cop_live (p_cu (l_p l))) &&
   e_closed (l_app l) && (negb (e_ex (l_upc l)) || e_closed (l_upc l)).
-(* direct forward (PipeData alone): every goroutine gone, and an end is still open only if it is the one whose peer hung up first *)
+(* what ConnectDirectly gave before it closed anything itself (PipeData alone): every goroutine gone, and an end still open only if it is
+   the one whose peer hung up first *)
 Definition l_released_direct (l : lconn) : bool :=
   match l_pc l with LDone => true | _ => false end && negb (cop_live (p_cd (l_p l))) && negb (cop_live (p_cu (l_p l))) &&
   (e_closed (l_app l) || e_eof (l_app l)) && (e_closed (l_upc l) || e_eof (l_upc l)).
